@@ -1,6 +1,7 @@
 """C04 - conversion never loses the original and is idempotent over run histories (structural clauses)."""
 import ast
 
+from sa import guards as G
 from sa.cfg import CFG, conjuncts
 from sa.common import chain_root, expand_name, resolved_calls, returns_of
 from sa.defuse import DefUse, loc_name
@@ -293,8 +294,11 @@ def d4_skip_paths(ctx):
         if not creators:
             raise AnchorMissing(f"{q}: no file creation found")
         for c in creators:
-            gs = cfg.guards(cfg.node_for(c))
-            ok = any(pol and "exists" in src(t) and "overwrite" in src(t) and isinstance(t, ast.BoolOp) and isinstance(t.op, ast.Or) for t, pol in gs)
+            # path condition |= (no existing output) or overwrite     (propositional entailment over the branch predicates)
+            at = G.Atoms()
+            pc = G.path_condition(cfg, cfg.node_for(c), at)
+            ex = [k for k in G.atoms_of(pc) if ".exists()" in k]
+            ok = bool(ex) and G.entails(pc, G.Or(G.And(*[G.Not(G.Atom(k)) for k in ex]), G.Atom("overwrite"))) is True
             ctx.check(ok, fi, c, c, "output is created only when absent or overwrite is requested",
                       f"`{src(c)[:60]}` can truncate existing output without overwrite=True", key="create:" + norm(c)[:60])
         # already_exists: False initially, True on the other branch
@@ -302,8 +306,10 @@ def d4_skip_paths(ctx):
         tr = [n for n in stores if isinstance(n.value, ast.Constant) and n.value.value is True]
         okb = False
         for n in tr:
-            gs = cfg.guards(cfg.node_for(n))
-            okb = any((not pol) and "exists" in src(t) and "overwrite" in src(t) for t, pol in gs)
+            at = G.Atoms()
+            pc = G.path_condition(cfg, cfg.node_for(n), at)
+            ex = [k for k in G.atoms_of(pc) if ".exists()" in k]
+            okb = bool(ex) and G.entails(pc, G.And(G.Or(*[G.Atom(k) for k in ex]), G.Not(G.Atom("overwrite")))) is True
         ctx.check(okb, fi, tr[0] if tr else fi.node, "self.already_exists = True", "already_exists is raised exactly when output exists and overwrite is off",
                   "already_exists is not set on the `exists and not overwrite` branch", key="already-exists")
 
